@@ -320,6 +320,29 @@ def pin(index, rep, flow):
     rep.require_min(rule, 6)
 
 
+def bump_slots(index):
+    """the bump's own slots, read from its body: result k = X_k + ..., potential increase of X_k = minimum(X_k + inc, C_k) - X_k.
+    Returns (function, [(series parameter, ceiling parameter) per result])"""
+    bump_fn = index.func(PARAMS, "Parameters.increase_biofuels_then_feed")
+    bparams = [a.arg for a in bump_fn.args.args][1:]
+    binl = Inliner(bump_fn)
+    brets = [r for r in walk_no_nested(bump_fn) if isinstance(r, ast.Return)]
+    slots = []  # per result: (series parameter, ceiling parameter)
+    if len(brets) == 1 and isinstance(brets[0].value, ast.Tuple):
+        ceil = {}
+        for m_ in walk_no_nested(bump_fn):
+            if isinstance(m_, ast.Call) and dotted(m_.func) in ("np.minimum", "min") and len(m_.args) == 2:
+                x_, c_ = m_.args
+                if isinstance(x_, ast.BinOp) and isinstance(x_.op, ast.Add) and isinstance(x_.left, ast.Name) and isinstance(c_, ast.Name) \
+                        and x_.left.id in bparams and c_.id in bparams:
+                    ceil.setdefault(x_.left.id, set()).add(c_.id)
+        for e_ in brets[0].value.elts:
+            ee = binl.expr(e_)
+            base = ee.left.id if isinstance(ee, ast.BinOp) and isinstance(ee.op, ast.Add) and isinstance(ee.left, ast.Name) and ee.left.id in bparams else None
+            slots.append((base, next(iter(ceil[base])) if base in ceil and len(ceil[base]) == 1 else None))
+    return bump_fn, slots
+
+
 def r3(index, rep, flow):
     rule = "C03.R3"
     fn = index.func(PARAMS, "Parameters.compute_parameters_third_round")
@@ -336,22 +359,40 @@ def r3(index, rep, flow):
     from .lanes import role_of
     params = [a.arg for a in fn.args.args]
     tg = [inl.src(e) for e in st.targets[0].elts] if isinstance(st.targets[0], ast.Tuple) else []
-    args = [inl.src(a) for a in c.args]
-    a3 = inl.expr(c.args[3]) if len(c.args) >= 5 else None
-    a4 = inl.expr(c.args[4]) if len(c.args) >= 5 else None
+    # the callee's own slots, from its body: result k = X_k + ..., potential increase of X_k = minimum(X_k + inc, C_k) - X_k
+    from .core import bind_args
+    bump_fn, slots = bump_slots(index)
+    bound = bind_args(c, bump_fn)
+    args = [inl.src(a) for a in bound.values()]
 
     def base_param(e):
         while isinstance(e, (ast.Attribute, ast.Call, ast.Subscript)):
             e = e.func if isinstance(e, ast.Call) else e.value
         return e.id if isinstance(e, ast.Name) and e.id in params else None
 
-    pb, pf = (base_param(a3), base_param(a4)) if a3 is not None else (None, None)
-    inl = Inliner(fn)
+    inl_f = Inliner(fn)
     r2 = [p_ for p_ in params if "interpreted_results" in p_ and role_of(p_, ("round1", "round2", "round3")) == "round2"]
-    ok = len(tg) == 2 and args[:2] == tg and len(r2) == 1 and tg[0].startswith(f"{r2[0]}.biofuels_sum_kcals_equivalent.") and tg[0].endswith(".kcals") and \
-        tg[1].startswith("self.init_meat_and_dairy_and_feed_from_breeding(") and tg[1].endswith("[0].kcals") and \
-        pb is not None and pf is not None and role_of(pb, ("feed", "biofuel")) == "biofuel" and role_of(pf, ("feed", "biofuel")) == "feed" and \
-        "demand" in pb and "demand" in pf
+    ok = len(tg) == 2 and len(slots) == 2 and len(r2) == 1 and all(x_ is not None and c_ is not None and x_ in bound and c_ in bound for x_, c_ in slots)
+    seen_roles = set()
+    if ok:
+        for k_, (x_, c_) in enumerate(slots):
+            if inl.src(bound[x_]) != tg[k_]:
+                ok = False  # result k is not stored back into the series it was computed from
+                break
+            if tg[k_].startswith(f"{r2[0]}.biofuels_sum_kcals_equivalent.") and tg[k_].endswith(".kcals"):
+                role = "biofuel"
+            elif tg[k_].startswith("self.init_meat_and_dairy_and_feed_from_breeding(") and tg[k_].endswith("[0].kcals"):
+                role = "feed"
+            else:
+                ok = False
+                break
+            seen_roles.add(role)
+            pc = base_param(inl.expr(bound[c_]))
+            if pc is None or role_of(pc, ("feed", "biofuel")) != role or "demand" not in pc:
+                ok = False  # the ceiling of this series is not the demand of the same use
+                break
+        ok = ok and seen_roles == {"biofuel", "feed"}
+    inl = inl_f
     rep.check(ok, rule, "bump:(biofuel, feed) slots and ceilings",
               f"the bump is not applied as (biofuel, feed) = f(biofuel, feed, inc, biofuel demand, feed demand, ...): targets {tg}, args {args[:5]}",
               loc=loc(PARAMS, c))
